@@ -75,6 +75,16 @@ def layout_cases():
         cases.append({"id": "direct-%d" % k, "mode": "direct", "plugins": [], "thrift": thrift, "root": "idl/a/b/x.thrift",
                       "direct": {p: "package p\n" for p in paths},
                       "expect": {"fail": conflict, "paths": [] if conflict else sorted("out/" + l for l in locs + core)}})
+    # library use without any plugin: the k-th of n modules fails to generate, nothing may be left behind
+    names = ["m1", "m2", "m3", "m4"]
+    for n in (2, 3, 4):
+        for kbad in range(0, n + 1):
+            th = {}
+            incs = "".join('include "./%s.thrift"\n' % x for x in names[1:n])
+            for i, x in enumerate(names[:n]):
+                th["idl/%s.thrift" % x] = (incs if i == 0 else "") + (BAD if (i + 1) == kbad else good(x))
+            cases.append({"id": "noplugin-modfail-%d-of-%d" % (kbad, n), "mode": "direct", "noplugin": True, "plugins": [], "thrift": th, "root": "idl/m1.thrift",
+                          "expect": {"fail": kbad != 0, "paths": sorted("out/%s/%s.go" % (x, x) for x in names[:n]) if kbad == 0 else []}})
     # a failing run on top of the output of an earlier successful run: nothing of the earlier output is touched
     bad_plugin = {"name": "p1", "hs": "ok", "gen": "exception", "bye": "ok", "files": {}, "truncAt": 0, "onebyte": False}
     dot_plugin = {"name": "p1", "hs": "ok", "gen": "dotdot", "bye": "ok", "files": {"../x.go": "package x"}, "truncAt": 0, "onebyte": False}
